@@ -54,6 +54,16 @@ func (s LockSet) HasField(f FieldID, write bool) bool {
 	return false
 }
 
+// HasOwner reports whether some held lock is a mutex field of the given owner struct (any name).
+func (s LockSet) HasOwner(owner string, write bool) bool {
+	for l := range s {
+		if l.Field.Owner == owner && (!write || !l.Read) {
+			return true
+		}
+	}
+	return false
+}
+
 // HasName reports whether some held lock's field has this name (any owner).
 func (s LockSet) HasName(name string, write bool) bool {
 	for l := range s {
